@@ -7,13 +7,20 @@ package main
 import (
 	"context"
 	"fmt"
+	"sync"
 
 	"github.com/samber/ro"
 )
 
 type attachFn func(ctx context.Context, rec *Recorder) ro.Subscription
 
+// lastAttached is the observable handed to the most recent attach call: it lets other case
+// kinds (random chains, kind=prom) reuse a buildFn as a plain operator (see specOperator).
+var lastAttached any
+var attachMu sync.Mutex
+
 func attach[T any](obs ro.Observable[T]) attachFn {
+	lastAttached = obs
 	return func(ctx context.Context, rec *Recorder) ro.Subscription {
 		return obs.SubscribeWithContext(ctx, observer[T](rec))
 	}
@@ -378,6 +385,25 @@ func init() {
 // documented behaviour is outside the oracle of a property that shares those runs (ContextReset replaces
 // the context by definition, so C09's "subscription marker present" oracle does not apply to it).
 var extraOpSpecs []OpSpec
+
+// specOperator turns a `chain: true` (int -> int) entry into the real operator function
+// (used by kinds that hand operators to other library functions, e.g. the ee PipeN of kind=prom).
+func specOperator(spec *OpSpec, p []int, variant string, cbs []Cb) (intOp, error) {
+	if !spec.chain {
+		return nil, fmt.Errorf("%s: not an int->int operator", spec.name)
+	}
+	ap, err := spec.mk(p, variant, cbs)
+	if err != nil {
+		return nil, err
+	}
+	return func(src ro.Observable[int]) ro.Observable[int] {
+		out, ok := ap(src).obs.(ro.Observable[int])
+		if !ok {
+			return ro.Throw[int](fmt.Errorf("%s: not an int observable", spec.name))
+		}
+		return out
+	}, nil
+}
 
 func findOp(name string) *OpSpec {
 	for i := range opSpecs {
